@@ -612,6 +612,15 @@ def run(case):
                 c.bad("cauchy-vector", "assembled Cauchy-stress load vector vs int h sigma . (J F^-T N) dA (up to the common sign convention)", float(ev), 0, 1e-10)
         fd_check(c, "K", [body, load], field, 2e-5 * hm)
         fd_check(c, "K-load-only", [load], field, 2e-5 * hm)
+        # the threaded assembly (parallel=True) of the load's vector and matrix gives the same system at this (sheared) state
+        Ks_ = fem.tools.jac([load], field).toarray()
+        Kp_ = fem.tools.jac([load], field, parallel=True).toarray()
+        rs_ = np.asarray(fem.tools.fun([load], field), float)
+        rp_ = np.asarray(fem.tools.fun([load], field, parallel=True), float)
+        c.trans += 4
+        c.traces += 2
+        if np.abs(Kp_ - Ks_).max() > 1e-12 * max(np.abs(Ks_).max(), 1e-300) or np.abs(rp_ - rs_).max() > 1e-12 * max(np.abs(rs_).max(), 1e-300):
+            c.bad("K-load-only/parallel", "load vector / matrix assembled with parallel=True differ from the serial ones", dict(matrix=float(np.abs(Kp_ - Ks_).max() / max(np.abs(Ks_).max(), 1e-300)), vector=float(np.abs(rp_ - rs_).max())), 0, 1e-12)
         if case["item"] == "pressure" and case["face"] == "one" and case["mag"] == 0.7 and "units" not in case:
             # call histories on ONE pressure item: every sequence (depth <= 2) over {vector, matrix} x {field at state A, field
             # at state B, no field} x {pressure argument or not} + update(): every returned vector / matrix must be
